@@ -5,7 +5,14 @@ import (
 	"reflect"
 
 	gcmp "github.com/google/go-cmp/cmp"
+	"github.com/google/go-cmp/cmp/cmpopts"
 )
+
+// compare unexported (lower case) record fields too, and regard nil and empty slices as the same.
+var opEqualOpts = gcmp.Options{
+	gcmp.Exporter(func(reflect.Type) bool { return true }),
+	cmpopts.EquateEmpty(),
+}
 
 func Pipe[T any, U any](elem T, f func(T) U) U {
 	return f(elem)
@@ -33,7 +40,7 @@ func Printf1[T any](fmtstr string, arg T) {
 }
 
 func OpEqual[T any](e1 T, e2 T) bool {
-	return gcmp.Equal(e1, e2)
+	return gcmp.Equal(e1, e2, opEqualOpts)
 }
 
 func OpNotEqual[T any](e1 T, e2 T) bool {
